@@ -88,7 +88,9 @@ def accounting(ctx, spec, T, seed):
     sl = M.get_species_list()
     rows = r["rows"]
     x0 = np.array(M.get_species_array(), dtype=float)
-    U = np.array(M.py_get_update_array()); D = np.array(M.py_get_delay_update_array())
+    # (the stoichiometries the run is held against come from the reaction definitions, not from the model object)
+    from modelspec import spec_matrices
+    U, D = spec_matrices(s2, sl)
     pend = np.array(r["queue"][1]).sum(axis=0) if r["queue"][1] else np.zeros(len(spec["reactions"]))
     rep = {"spec": s2, "grid": [float(t) for t in T], "seed": seed}
     ctx.evaluated()
@@ -319,6 +321,32 @@ def queue_finer_than_volume_step(ctx):
             ctx.count("queue_vs_volume_step_runs")
 
 
+def shared_delayed_species(ctx):
+    """delayed products that also take part in the immediate reaction (a species bound at firing and handed back with the
+    product after the delay), listed twice, or both consumed and produced in the delayed part: fixed fuel, so the totals at
+    the end are known exactly."""
+    T = np.linspace(0, 60.0, 121)
+    for name, rx, final in (
+            ("control", {"reactants": ["F"], "products": ["C"], "dreactants": [], "dproducts": ["M"]}, {"F": 0, "C": 40, "M": 40, "P": 5}),
+            ("sequestered", {"reactants": ["F", "P"], "products": ["C"], "dreactants": [], "dproducts": ["P", "M"]}, {"F": 0, "C": 40, "M": 40, "P": 5}),
+            ("double", {"reactants": ["F"], "products": ["C"], "dreactants": [], "dproducts": ["M", "M"]}, {"F": 0, "C": 40, "M": 80, "P": 5}),
+            ("returned product", {"reactants": ["F"], "products": ["C", "M"], "dreactants": [], "dproducts": ["M"]}, {"F": 0, "C": 40, "M": 80, "P": 5})):
+        for dl in ({"type": "fixed", "delay": "tau"}, {"type": "gaussian", "mean": "tau", "std": "sd"}, {"type": "gamma", "k": "gk", "theta": "gt"}):
+            spec = {"species": ["F", "P", "C", "M"], "reactions": [dict(rx, prop={"type": "massaction", "k": "k0"}, delay=dl)],
+                    "params": {"k0": 0.5, "tau": 0.5, "sd": 0.1, "gk": 2.0, "gt": 0.25}, "ic": {"F": 40, "P": 5, "C": 0, "M": 0}}
+            case = {"scenario": "delayed species shared with the immediate part: " + name, "spec": spec, "seed": 17}
+            ctx.begin_case(case)
+            M = build_model(spec)
+            r = simcorr.run_real(M, "delay", T, 17, float(T[1] - T[0]))
+            ctx.evaluated()
+            sl = M.get_species_list()
+            last = {s_: float(r["rows"][-1][sl.index(s_)]) for s_ in sl}
+            if any(last[s_] != float(v) for s_, v in final.items()):
+                ctx.violation("accounting/shared-delayed-species", "%s, %s delay: 40 firings from 40 units of fuel end at %s; the reaction list gives %s" % (name, dl["type"], last, final), case)
+                return
+            ctx.count("shared_delayed_species_runs")
+
+
 def sampler_corr(ctx, rng):
     """Delay samplers: the model's draws equal py_normal_rv / py_gamma_rv / py_uniform_rv bit for bit; KS support."""
     from bioscrape.random import py_seed_random, py_normal_rv, py_gamma_rv, py_uniform_rv, py_exponential_rv
@@ -418,6 +446,7 @@ def run(ctx):
     sampler_corr(ctx, rng)
     zero_delay_law(ctx, 3000 if ctx.quick() else 200000, 5000 * ctx.seed + 3)
     queue_finer_than_volume_step(ctx)
+    shared_delayed_species(ctx)
 
 
 def replay(ctx, obj):
